@@ -4,7 +4,7 @@ from __future__ import annotations
 import json
 
 from harness.framework import Violation
-from harness.seqprop import indep_fall, SeqProp, slots_of
+from harness.seqprop import indep_phase_jump, indep_rise, indep_fall, SeqProp, slots_of
 from pulser import Pulse
 from pulser.sequence._schedule import _ChannelSchedule
 
@@ -107,7 +107,7 @@ class C03(SeqProp):
                             break
                     if lps is not None and float(lps.type.phase) != float(new.type.phase) and not op.get("correct"):
                         ie = cs.in_eom_mode()
-                        pjb = max(ch.phase_jump_time, 2 * ch.rise_time * ie) + indep_fall(lps.type, ch, ie) - (t0 - lps.tf)
+                        pjb = max(indep_phase_jump(ch), 2 * indep_rise(ch) * ie) + indep_fall(lps.type, ch, ie) - (t0 - lps.tf)
                     if not op.get("correct"):
                         want = t0 + round_delay(ch, max(e - t0, pjb))
                         if ti < want:
